@@ -104,6 +104,13 @@ func c01Pool(c *core.Ctx, maxRules int) (lines []string, specs []c01Spec) {
 				lit := strings.NewReplacer("||", "", "|", "", "@@", "", "*", "").Replace(prefix + t)
 				specs = append(specs, c01Spec{&gen.Spec{Pattern: prefix + t + strings.SplitN(suffix, "$", 2)[0]}, strings.TrimPrefix(lit, "http://") + "7.ru"})
 			}
+		case r == 17 && len(lines) > 0 && c.Rng.Intn(2) == 0:
+			// Raw non-ASCII text in the pattern (multi-byte characters inside
+			// and at the edges of the five-byte windows).
+			s := &gen.Spec{Pattern: []string{"/ban/\u0440\u0435\u043a\u043b\u0430\u043c\u0430", "||\u00fcnl\u00fc-shop.example^", "/ads/\u5e7f\u544a/", "||shop-\u00fcnl\u00fc.example^", "/r\u00e9clame/x", "\u00e9\u00e9\u00e9"}[c.Rng.Intn(6)]}
+			gen.AddRandomMods(c.Rng, s, gen.ModKinds{ThirdParty: true, Important: true, Types: true}, 0.1)
+			lines = append(lines, s.Render(c.Rng))
+			specs = append(specs, c01Spec{s, ""})
 		case r == 17 && len(lines) > 0:
 			lines = append(lines, lines[c.Rng.Intn(len(lines))])
 		case r == 18:
